@@ -926,9 +926,16 @@ pub fn run(suite: &str, thorough: bool, seed: u64, shard: usize, nshards: usize,
                 let cfg = gen::DocCfg { max_depth: 4, ..Default::default() };
                 let d = gen::gen_document(&mut r, &cfg);
                 let rd = doc::render(&d);
+                // the reference layout: every layout of the document must lex to ITS token sequence (the
+                // hypothesis of `C02Layout.layout_independent`, evaluated by the driver)
+                let mut ref_text: Option<String> = None;
                 for style in [LayoutStyle::Plain, LayoutStyle::Tight, LayoutStyle::Wild, LayoutStyle::Wild] {
                     let laid = doc::layout(&rd.toks, style, &mut r);
+                    if ref_text.is_none() {
+                        ref_text = Some(laid.text.clone());
+                    }
                     let extra = vec![
+                        ("ref_text", Json::s(ref_text.clone().unwrap())),
                         ("expect_sx", Json::s(doc::sx_doc(&d))),
                         ("expect_spans", spans_json(&rd, &laid)),
                         ("verdict", Json::s(if gen::has_overflowing_code(&d) { "bad" } else { "wf" })),
